@@ -804,7 +804,7 @@ func (p Patch) ApplyIndent(doc []byte, indent string) ([]byte, error) {
 	}
 
 	var pd container
-	if doc[0] == '[' {
+	if isArray(bytes.TrimLeft(doc, " \t\r\n")) {
 		pd = &partialArray{}
 	} else {
 		pd = &partialDoc{}
